@@ -477,6 +477,7 @@ def coverage(records: list[dict], extras: list[dict], options: dict) -> dict:
 def minimise(zy: ZygoteSet, seed_: int, run: int, violation: dict, options: dict):
     """Shrink (unless disabled), confirm by replaying in fresh forks, write the replay file."""
     workload, traces, sig = violation["workload"], violation["traces"], violation["sig"]
+    original = (copy.deepcopy(workload), list(traces))
     shrunk = False
     if not options.get("no_shrink"):
         workload, traces = shrink(zy, seed_, run, workload, traces, sig,
@@ -484,6 +485,10 @@ def minimise(zy: ZygoteSet, seed_: int, run: int, violation: dict, options: dict
         shrunk = True
     out = execute(zy, seed_, run, workload, traces, tag="-confirm")
     match = [x for x in out["violations"] if x["sig"] == sig]
+    if not match and shrunk:
+        (workload, traces), shrunk = original, False  # fragile violation: fall back to the run as generated
+        out = execute(zy, seed_, run, workload, traces, tag="-confirm")
+        match = [x for x in out["violations"] if x["sig"] == sig]
     if not match:
         return None
     payload = {
